@@ -4,7 +4,7 @@
    atomic here: a Get takes the read lock, reads the cache, releases; a
    Put/Delete takes the write lock, updates the cache, then writes the file
    (two separate steps: in between, memory and file disagree), releases.  A Put
-   whose username contains a colon is refused before any lock is taken.
+   that FileStore.Put does not accept (put_accepts) is refused before any lock is taken.
    sync.RWMutex is modelled by its specification: the read lock is granted when
    no writer holds the lock, the write lock when nobody holds it.
    Steps carry the linearisation label (thread, operation, result) at the moment
@@ -35,8 +35,9 @@ Definition in_write_cs (p : pc) : Prop :=
 (* operations that take the write lock *)
 Definition writer_op (o : op) : Prop :=
   match o with
-  | Put _ c => contains colon (c_user c) = false
+  | Put a c => put_accepts a c = true
   | Delete _ => True
+  | SetCs _ => True
   | Get _ => False
   end.
 
@@ -55,6 +56,7 @@ Section Conc.
                   | Some _ => {| m_content := m_content m; m_cache := del a (m_cache m); m_cs := m_cs m |}
                   | None => m
                   end
+    | SetCs s => {| m_content := m_content m; m_cache := m_cache m; m_cs := s |}
     end.
 
   Definition needs_save (m : mem) (o : op) : bool :=
@@ -62,6 +64,7 @@ Section Conc.
     | Get _ => false
     | Put _ _ => true
     | Delete a => match lookup a (m_cache m) with Some _ => true | None => false end
+    | SetCs _ => true
     end.
 
   Definition with_thread (g : gstate) (i : nat) (t : thread) : gstate :=
@@ -85,7 +88,7 @@ Section Conc.
                                 t_done := (Get a, r) :: t_done (g_threads g i) |})
   | c_refuse g i a c rest :
       t_pc (g_threads g i) = Idle -> t_todo (g_threads g i) = Put a c :: rest ->
-      contains colon (c_user c) = true ->
+      put_accepts a c = false ->
       cstep g (Some (i, Put a c, RErrBadCred))
             (with_thread g i {| t_pc := Idle; t_todo := rest;
                                 t_done := (Put a c, RErrBadCred) :: t_done (g_threads g i) |})
